@@ -154,7 +154,7 @@ Section Decode.
       exists d e T ch, h_chunked h = Some ch /\ S = d ++ e ++ T /\ h_readlen h = lenN d + lenN e /\
         lenN e <= 2 /\
         if ch then (d <> [] -> lenN e = 2) /\ csim (got h ++ d) T
-        else e = [] /\ T = [] /\ got h ++ d = body /\ exists pos, p_framing r = FrClen pos
+        else e = [] /\ T = [] /\ got h ++ d = body /\ exists pos ds, p_framing r = FrClen pos ds
     | PhToEof => resp_known h /\ p_framing r = FrClose /\ got h ++ S = body
     end.
 
@@ -176,22 +176,25 @@ Section Decode.
     destruct H as [[[[H1 H2] H3] H4] H5]. apply N.leb_le in H5. repeat split; assumption.
   Qed.
 
-  Lemma framing_field_wf pos f : framing_field r = Some (pos, f) -> wf_field true f = true.
+  Lemma framing_field_wf pos f : wf_framing ishead r = true ->
+    framing_field r = Some (pos, f) -> wf_field true f = true.
   Proof.
-    unfold framing_field. destruct (p_framing r); try discriminate; intros H; inversion H; subst.
+    unfold framing_field, wf_framing.
+    destruct (p_framing r) as [|p ds| |]; try discriminate; intros Hw H; inversion H; subst.
     - unfold wf_field. cbn [f_name f_value f_lead f_trail].
-      destruct (dec_spec (lenN (p_body r))) as (_ & D2 & _).
-      rewrite (wf_value_digits _ D2). reflexivity.
+      apply andb_true_iff in Hw. destruct Hw as [_ Hw].
+      destruct (wf_clen_parts _ _ Hw) as (_ & Dv & _).
+      rewrite (wf_value_digits _ (dec_value_digits _ _ _ Dv)). reflexivity.
     - reflexivity.
   Qed.
 
   Lemma final_fields_wf : good -> forallb (wf_field true) (final_fields r) = true.
   Proof.
-    intros G. destruct (good_parts G) as (_ & H2 & _).
+    intros G. destruct (good_parts G) as (_ & H2 & Hfr & _).
     destruct (wf_msg_parts _ _ _ _ H2) as (_ & _ & _ & _ & H6).
     apply wf_fields_weaken in H6. unfold final_fields.
     destruct (framing_field r) as [[pos f]|] eqn:E; [|exact H6].
-    apply forallb_insert_at; [exact (framing_field_wf pos f E) | exact H6].
+    apply forallb_insert_at; [exact (framing_field_wf pos f Hfr E) | exact H6].
   Qed.
 
   Lemma fields_no_framing_names : good -> p_framing r <> FrNone ->
@@ -250,14 +253,14 @@ Section Decode.
     unfold select_framing. rewrite Hish, Hst, Hhs. unfold st_exp. rewrite bodiless_model.
     unfold wf_framing in Hfr. unfold hs_exp, final_fields, framing_field.
     unfold body, resp_body in Hlim.
-    destruct (p_framing r) as [|pos|pos cs ld le tr|] eqn:Efr.
+    destruct (p_framing r) as [|pos ds|pos cs ld le tr|] eqn:Efr.
     - (* no body *)
       rewrite Hfr. eexists. split; [reflexivity|].
       rewrite expect_eq. unfold body, resp_body, hs_exp, final_fields, framing_field, st_exp. rewrite Efr. reflexivity.
     - (* Content-Length *)
       apply andb_true_iff in Hfr. destruct Hfr as [Hnb Hlen]. apply negb_true_iff in Hnb. rewrite Hnb.
-      apply N.ltb_lt in Hlen. specialize (Hnames ltac:(discriminate)).
-      set (f := mkF name_clen (dec (lenN (p_body r))) [SP] []).
+      destruct (wf_clen_parts _ _ Hlen) as (Dne & Dv & Hlen64). specialize (Hnames ltac:(discriminate)).
+      set (f := mkF name_clen ds [SP] []).
       change hdr_transfer_encoding with name_te. change hdr_content_length with name_clen.
       rewrite (findheader_none (insert_at pos f (m_fields (p_final r))) name_te).
       2:{ intros g Hg. destruct (in_insert_at _ _ _ _ Hg) as [-> | Hg']; [reflexivity | apply (Hnames g Hg')]. }
@@ -265,7 +268,7 @@ Section Decode.
       rewrite (findheader_insert f name_clen eq_refl pos (m_fields (p_final r))).
       2:{ intros g Hg. apply (Hnames g Hg). }
       cbn [f_value f]. change clen_base with 10. change (negb (clen_trailing =? 0)) with false.
-      rewrite (parse_dec _ Hlen). cbn [bind]. unfold get_body_gotclen.
+      rewrite (parse_clen _ _ Dne Dv Hlen64). cbn [bind]. unfold get_body_gotclen.
       replace (h_max h <? lenN (p_body r)) with false by (symmetry; apply N.ltb_ge; lia).
       eexists. split; [reflexivity|]. split; [reflexivity|]. split; [discriminate|].
       split; [split; [apply set_read_inv; exact I | split; assumption]|].
@@ -275,7 +278,7 @@ Section Decode.
       split; [cbn [h_readlen set_read]; rewrite lenN_nil; lia|].
       split; [rewrite lenN_nil; lia|].
       split; [reflexivity|]. split; [reflexivity|].
-      split; [|exists pos; exact Efr].
+      split; [|exists pos, ds; exact Efr].
       change (got (set_read h false (lenN (p_body r)))) with (got h). rewrite Hgot.
       unfold body, resp_body. rewrite Efr. reflexivity.
     - (* chunked *)
@@ -883,8 +886,8 @@ Lemma expect_meaning r :
 Proof. reflexivity. Qed.
 
 (* M3: the three framings and the bodiless case, whole response in one read from a fresh reader *)
-Theorem clen_roundtrip stale limit ishead r pos :
-  wf_response ishead r = true -> p_framing r = FrClen pos -> lenN (p_body r) <= limit -> limit < two64 ->
+Theorem clen_roundtrip stale limit ishead r pos ds :
+  wf_response ishead r = true -> p_framing r = FrClen pos ds -> lenN (p_body r) <= limit -> limit < two64 ->
   forall e,
   http_response_run repo_terminated stale init_rdr limit ishead (mkNet [render r] e)
   = Ok (Done [CbResp (Z.of_N (m_status (p_final r))) (map nv (final_fields r))
@@ -1036,7 +1039,7 @@ Example ex_chunked_bytewise :
 Proof. vm_compute. reflexivity. Qed.
 
 Definition ex_clen : response :=
-  mkResp [] (mkM [48] 404 [78; 111; 112; 101] [mkF [65] [49] [] []]) (FrClen 1) [0; 13; 10; 13; 10; 255].
+  mkResp [] (mkM [48] 404 [78; 111; 112; 101] [mkF [65] [49] [] []]) (FrClen 1 [48; 48; 54]) [0; 13; 10; 13; 10; 255].
 Definition ex_close : response :=
   mkResp [mkM [49] 199 [] []] (mkM [49] 599 [] []) FrClose [48; 13; 10; 13; 10].
 Definition ex_head : response :=
@@ -1044,6 +1047,24 @@ Definition ex_head : response :=
 
 Example ex_others_wf :
   wf_response false ex_clen = true /\ wf_response false ex_close = true /\ wf_response true ex_head = true.
+Proof. repeat split; vm_compute; reflexivity. Qed.
+
+(* Content-Length written with leading zeros: "010" is ten (not eight, the base-0 reading), "0019" is
+   nineteen (not a parse failure); computed, byte by byte and in one read *)
+Definition ex_clen010 : response :=
+  mkResp [] (mkM [49] 200 [79; 75] []) (FrClen 0 [48; 49; 48]) [1; 2; 3; 4; 5; 6; 7; 8; 9; 10].
+Definition ex_clen0019 : response :=
+  mkResp [] (mkM [49] 200 [79; 75] []) (FrClen 0 [48; 48; 49; 57]) (repeat 120 19).
+
+Example ex_clen_leading_zeros :
+  wf_response false ex_clen010 = true /\ wf_response false ex_clen0019 = true /\
+  http_response_run repo_terminated 0 init_rdr 10 false (mkNet (map (fun b => [b]) (render ex_clen010)) EndEof)
+    = Ok (Done [expect ex_clen010]) /\
+  http_response_run repo_terminated 0 init_rdr 100 false (mkNet [render ex_clen0019] EndEof)
+    = Ok (Done [expect ex_clen0019]) /\
+  http_response_run repo_terminated 0 init_rdr 100 false (mkNet [render ex_clen] EndEof)
+    = Ok (Done [expect ex_clen]) /\
+  expect ex_clen010 = CbResp 200 [(name_clen, [48; 49; 48])] false 10 [1; 2; 3; 4; 5; 6; 7; 8; 9; 10].
 Proof. repeat split; vm_compute; reflexivity. Qed.
 
 (* ------------------------------------------------------------------ the two limit clauses (finding F12) *)
@@ -1061,7 +1082,7 @@ Lemma wf_response_limit_clauses ishead r :
   wf_response ishead r = true <-> wf_response_nolimits ishead r = true /\ within_limits r = true.
 Proof.
   unfold wf_response, wf_response_nolimits, within_limits, wf_framing, wf_framing_nolimits.
-  destruct (p_framing r) as [|pos|pos cs ld le tr|]; rewrite !andb_true_iff; try tauto.
+  destruct (p_framing r) as [|pos ds|pos cs ld le tr|]; rewrite !andb_true_iff; try tauto.
   rewrite wf_chunks_split. tauto.
 Qed.
 
